@@ -23,7 +23,7 @@ ASSUMPTIONS = ['inputs the real parser rejects are skipped (C03/C04 report those
                'checked with refjs only for inputs refjs itself reads as the same tree (else input_not_es5)',
                'nesting depth is bounded (RecursionError in the recursive printers is a resource limit)']
 BUDGET_S = {'quick': 120, 'thorough': 900}
-REQUIRED_HITS = ['pretty_print', 'reparse', 'fixpoint_compared', 'reference_reread', 'used_printer']
+REQUIRED_HITS = ['pretty_print', 'reparse', 'fixpoint_compared', 'reference_reread', 'used_printer', 'deep_chain']
 FLOOR = {'quick': 3000, 'thorough': 40000}
 
 INDENTS = ['  ', '\t', '', ' ', '    ', ' \t']
@@ -174,6 +174,11 @@ def run(ctx):
         if ctx.out_of_time():
             break
     progs.report()
+    # deep rather than wide (skipped where this interpreter's own stack is the limit: RecursionError is not a verdict)
+    for k, (name, n, text) in enumerate(work.deep_chain_texts()):
+        if k % ctx.nshards == ctx.shard:
+            ctx.hit('deep_chain')
+            check(ctx, text, ['  ', '\t'][k % 2:k % 2 + 1], 'deep_chain:' + name)
     if 'node_kinds_printed__set' in ctx.extra:
         ctx.extra['node_kinds_printed__set'] = sorted(ctx.extra['node_kinds_printed__set'])
 
